@@ -48,6 +48,19 @@ def list_sort(E, ref, h, kwargs):
     return NONE
 
 
+def math_sqrt(E, args, kwargs, node):
+    """math.sqrt over the reals: sqrt(x) >= 0 and sqrt(x)**2 == x for x >= 0, ValueError below 0"""
+    x = E.as_z3_real(args[0])
+    _assumed(E, 'math.sqrt over the reals: for x >= 0, sqrt(x) >= 0 and sqrt(x) * sqrt(x) == x; ValueError for x < 0 '
+                '(floating point treated as real arithmetic)')
+    if E.branch(x < 0, 'sqrt domain'):
+        _raise('ValueError', 'math domain error')
+    f = z3.Function('sqrt', z3.RealSort(), z3.RealSort())
+    E.assume(f(x) >= 0)
+    E.assume(f(x) * f(x) == x)
+    return VR(f(x))
+
+
 def itemgetter(E, args, kwargs, node):
     return E.alloc(HObj(None, {'k': args[0]}, name='itemgetter'))
 
@@ -133,6 +146,7 @@ def roman_to_roman(E, args, kwargs, node):
 
 
 TABLE = {
+    'math.sqrt': math_sqrt,
     'operator.itemgetter': itemgetter,
     'functools.cmp_to_key': cmp_to_key,
     'roman.toRoman': roman_to_roman,
